@@ -119,6 +119,28 @@ pub fn run(outdir: &Path, tier: &str, _seed: u64, shards: usize) {
             plan.push(("variable", kind, vname, t));
         }
     }
+    // members of an @oneOf input (nullable by definition; the generated variant carries the member's type
+    // with one `!` put in front) and variables that have a DEFAULT VALUE (the declared type is unchanged by it)
+    fn literal(t: &GType) -> String {
+        match t {
+            GType::Named(_) => "1".into(),
+            GType::List(_) => "[]".into(),
+            GType::NonNull(u) => literal(u),
+        }
+    }
+    let mut one_members = vec![];
+    for (i, t) in shapes("Int", depth.min(3)).into_iter().enumerate() {
+        if !t.is_nonnull() {
+            let name = format!("o{}", i);
+            one_members.push((name.clone(), t.clone()));
+            plan.push(("oneof_member", "scalar", name, GType::nn(t.clone())));
+        }
+        let vname = format!("d{}", i);
+        vars.push(VarDef { name: vname.clone(), ty: t.clone(), default: Some(literal(&t)) });
+        plan.push(("variable_with_default", "scalar", vname, t));
+    }
+    defs.push(TypeDef::Input { name: "OneHolder".into(), fields: one_members, one_of: true });
+    vars.push(VarDef { name: "one".into(), ty: GType::named("OneHolder"), default: None });
     vars.push(VarDef { name: "holder".into(), ty: GType::named("Holder"), default: None });
     defs.push(TypeDef::Input { name: "Holder".into(), fields: holder, one_of: false });
     defs.push(TypeDef::Object { name: "Query".into(), implements: vec![], fields: qfields });
@@ -151,10 +173,17 @@ pub fn run(outdir: &Path, tier: &str, _seed: u64, shards: usize) {
             let sname = match *pos {
                 "response" => "ResponseData",
                 "narrowed_response" => "QNarrow",
-                "variable" => "Variables",
+                "variable" | "variable_with_default" => "Variables",
                 _ => "Holder",
             };
-            let obs: Option<RType> = find_struct(sname).and_then(|fs| fs.iter().find(|f| &f.ident == name).map(|f| f.ty.clone()));
+            let obs: Option<RType> = if *pos == "oneof_member" {
+                m.and_then(|m| m.items.iter().find_map(|i| match i {
+                    RItem::ExtEnum { name: en, variants, .. } if en == "OneHolder" => variants.iter().find(|v| v.rename.as_deref() == Some(name.as_str()) || v.ident.eq_ignore_ascii_case(name)).and_then(|v| v.payload.clone()),
+                    _ => None,
+                }))
+            } else {
+                find_struct(sname).and_then(|fs| fs.iter().find(|f| &f.ident == name).map(|f| f.ty.clone()))
+            };
             let (obs_c, note) = match obs {
                 None => ("None".to_string(), format!("field {} missing in {} ({})", name, sname, match &mods { Err(e) => e.clone(), _ => "".into() })),
                 Some(ty) => {
@@ -186,7 +215,7 @@ pub fn run(outdir: &Path, tier: &str, _seed: u64, shards: usize) {
         outdir,
         shards,
         json!({
-            "rule": format!("every well-formed type expression of list depth <= {} (all placements of !) x 5 kinds of named type x {{response field, variable, input field}} x {{SDL, introspection JSON}}, plus the fields of an object that narrows its interface's declarations (depth <= 3); non-trivial = has a list or a !; distinct by (format, position, kind, type)", depth),
+            "rule": format!("every well-formed type expression of list depth <= {} (all placements of !) x 5 kinds of named type x {{response field, variable, input field}} x {{SDL, introspection JSON}}, plus the fields of an object that narrows its interface's declarations, the members of an @oneOf input and variables with a default value (depth <= 3); non-trivial = has a list or a !; distinct by (format, position, kind, type)", depth),
             "exhaustive": true,
             "distribution": dist,
             "samples": samples,
